@@ -132,6 +132,91 @@ theorem C06_crash_escapes (cfg : Cfg) (st : St) (data : Bytes) (h : st.request.s
   · exact Or.inl ⟨hcr, hb⟩
   · exact Or.inr ⟨q1, rem, h1, h2, hb⟩
 
+/-- **C06: an empty method is rejected (1e14ff2).**  A first segment whose first line starts
+with a space — i.e. a request line with an empty method, such as ` http://h/ HTTP/1.1` — is a
+parse error for every configuration without a pending PROXY line: exactly the canned 400 is
+queued and teardown requested; no plugin is selected and no upstream connection is made. -/
+theorem C06_empty_method_rejected (cfg : Cfg) (t line rest : Bytes) (hflag : cfg.proxyProtocol = false)
+    (hcr : splitCRLF (SP :: t) = some (line, rest)) :
+    handleData cfg {} (SP :: t) =
+      ({ buffer := [cfg.badRequest] }, .reject (.parse (.parser .httpProtocol)) [cfg.badRequest], true) := by
+  have hline : ∃ l', line = SP :: l' := by
+    cases t with
+    | nil => simp [splitCRLF] at hcr
+    | cons d r =>
+      unfold splitCRLF at hcr
+      split at hcr
+      · next h => simp [SP] at h
+      · cases hr : splitCRLF (d :: r) with
+        | none => simp [hr] at hcr
+        | some lr => simp only [hr, Option.some.injEq, Prod.mk.injEq] at hcr; exact ⟨lr.1, hcr.1.symm⟩
+  obtain ⟨l', rfl⟩ := hline
+  have hpl : Px.Parser.processLine cfg.pcfg (Px.Parser.init .request) (SP :: t) = .error .httpProtocol := by
+    unfold Px.Parser.processLine
+    simp only [hcr, Px.Parser.init]
+    have h3 : ∃ tl, splitN1 SP 2 (SP :: l') = [] :: tl := by
+      simp [splitN1, splitOnce1]
+    obtain ⟨tl, htl⟩ := h3
+    rw [htl]
+    match tl with
+    | [] => rfl
+    | [_] => rfl
+    | [_, _] => rfl
+    | _ :: _ :: _ :: _ => rfl
+  have hparse : Px.Parser.parse cfg.pcfg (Px.Parser.init .request) (SP :: t) = .error .httpProtocol := by
+    unfold Px.Parser.parse
+    simp only [Px.Parser.init, List.length_cons]
+    have : Px.Parser.stepOnce cfg.pcfg
+        { ty := .request, totalSize := 0 + (t.length + 1), buffer := none } (SP :: t) = .error .httpProtocol := by
+      unfold Px.Parser.stepOnce
+      have hp' := hpl
+      simp only [Px.Parser.init] at hp'
+      unfold Px.Parser.processLine at hp' ⊢
+      simp only [Px.Parser.PState.num] at hp' ⊢
+      simpa using hp'
+    simp [Px.Parser.loop, this]
+  have hreq : reqParse cfg {} (SP :: t) = .error (.parser .httpProtocol) := by
+    unfold reqParse Px.PP.parseWith
+    have hp' := hparse
+    simp only [Px.Parser.init] at hp'
+    simp [hflag, hp', Px.Parser.init]
+  unfold handleData parseFirst
+  simp [hreq, Px.Parser.init]
+
+/-- **C06: the web server answers a non-UTF-8 path with 400 (eb09b1e).**  Whenever the web
+server plugin is the selected plugin (`webGuard`: the modelled head of
+`HttpWebServerPlugin.on_request_complete`, everything behind it abstract) and the completed
+request's path is not valid UTF-8, the connection ends with exactly the canned 400 queued by the
+plugin, `True` returned, must-flush set and read interest dropped — for every routing / static
+file behaviour `inner`. -/
+theorem C06_web_bad_path_rejected (cfg : Cfg) (inner : Nat → Px.Parser.Parser → PluginRes) (webPid : Nat)
+    (st : St) (data : Bytes) (rq : Px.Parser.Parser) (path : Bytes)
+    (hcfg : cfg.onComplete = webGuard cfg.badRequest webPid inner)
+    (hst : st.request.state ≠ .complete) (hp : reqParse cfg st data = .ok rq) (hc : rq.state = .complete)
+    (hproto : handlerProtocol rq ≠ .unknown) (hd : discover cfg.plugins (handlerProtocol rq).num = some webPid)
+    (hpath : rq.path = some path) (hne : path ≠ []) (hbad : Px.Url.utf8Valid path = false) :
+    (handleData cfg st data).2 = (.served webPid true, true) ∧
+    (handleData cfg st data).1.buffer = st.buffer ++ [cfg.badRequest] ∧
+    (tick cfg st data).1.mustFlush = true ∧ reading (tick cfg st data).1 = false := by
+  have hoc : cfg.onComplete webPid rq = .ret [cfg.badRequest] true := by
+    rw [hcfg]
+    unfold webGuard
+    have : path.isEmpty = false := by cases path with | nil => exact absurd rfl hne | cons _ _ => rfl
+    simp [hpath, this, hbad]
+  have hhd : handleData cfg st data =
+      ({ st with request := rq, pp := ppNext cfg st data, plugin := some webPid,
+                 buffer := st.buffer ++ [cfg.badRequest] }, .served webPid true, true) := by
+    rw [handleData_first cfg st data hst]
+    unfold parseFirst
+    have hu : (handlerProtocol rq == Proto.unknown) = false := by simpa using hproto
+    simp [hp, hc, hu, hd, hoc, afterPlugin]
+  refine ⟨by rw [hhd], by rw [hhd], ?_, ?_⟩
+  · rw [tick_eq, hhd]
+    have : st.escaped = false ∨ st.escaped = true := by cases st.escaped <;> simp
+    rcases this with he | he <;> simp [he]
+    sorry
+  · exact tick_stops cfg st data (Or.inl (by rw [hhd]))
+
 /-- non-vacuity: the plugin contract is satisfiable, and the three classes all occur -/
 example : NoCrash {} := ⟨fun _ _ _ h => (by cases h), fun _ _ _ _ h => (by cases h)⟩
 example : (handleData { plugins := [[3]] } {} (b "GET http://h/ HTTP/1.1\r\n")).2.1 = .wait := by decide +kernel
